@@ -136,17 +136,27 @@ func c15Run(raw []byte) (*Line, error) {
 				return nil, fmt.Errorf("bad term")
 			}
 		}
+		// The columns of the design the MODEL sees are the harness's own evaluation of the terms at the
+		// abscissae of the case (never what the library handed to the term functions): a library that
+		// passes other abscissae to the terms (reordered, shifted, a stale copy) fits another design.
 		cols := make([][]float64, len(c.Basis))
+		for j := range c.Basis {
+			col := make([]float64, len(xs0))
+			for i, x := range xs0 {
+				col[i] = c15TermValue(c.Basis[j], x)
+			}
+			if !finiteAll(col) {
+				return nil, fmt.Errorf("non-finite basis value")
+			}
+			cols[j] = col
+		}
 		terms := make([]func(xs, out []float64), len(c.Basis))
 		for j := range c.Basis {
 			j := j
 			terms[j] = func(txs, out []float64) {
-				col := make([]float64, len(out))
 				for i := range out {
 					out[i] = c15TermValue(c.Basis[j], txs[i])
-					col[i] = out[i]
 				}
-				cols[j] = col
 			}
 		}
 		var params []float64
@@ -154,16 +164,6 @@ func c15Run(raw []byte) (*Line, error) {
 		l.Fs(xs).Fs(ys).B(c.HasW).Fs(ws)
 		l.I(len(c.Basis))
 		for j := range c.Basis {
-			if cols[j] == nil { // the call panicked before evaluating the terms
-				col := make([]float64, len(xs))
-				for i, x := range xs {
-					col[i] = c15TermValue(c.Basis[j], x)
-				}
-				cols[j] = col
-			}
-			if !finiteAll(cols[j]) {
-				return nil, fmt.Errorf("non-finite basis value")
-			}
 			l.Fs(cols[j])
 		}
 		l.I(status(pan)).Fs(params).B(unmodified())
